@@ -39,6 +39,7 @@ mod multi;
 pub use snapshot::{PathSnap, Snapshot, SpaceSnap, StreamsSnap};
 pub use inject::{FrameProbe, Inject, StreamProbe};
 pub use txlog::{TxLog, TxPkt};
+pub use multi::{ConnCidView, EndpointView, MetaView};
 
 pub(crate) fn hex(b: &[u8]) -> String {
     if b.is_empty() {
